@@ -153,7 +153,11 @@ def run_cases(ctx, cs, stream="ElasticsearchQueryBuilder"):
 
 
 def run(ctx):
-    cs = cases(ctx, ctx.budget(500, 10000), mixes=True, misuse=0.2)
+    n = ctx.budget(500, 10000)
+    cs = cases(ctx, n, mixes=True, misuse=0.2)
+    # boolean operations (what `UnknownOperationResolver(resolve_to=BoolOperation)` produces) are neither AND-like
+    # nor OR-like: an AND / OR directly under one is not a mix, whatever the default operator (seeded C07-E)
+    cs += cases(ctx, n // 3, mixes=True, misuse=0.05, bool_ops=True)[max(60, (n // 3) // 4):]
     for schema, cfg, d, r, raw in run_cases(ctx, cs):
         got = r["err"][0] if "err" in r else None
         exp = expected(d, cfg)
